@@ -67,6 +67,32 @@ def gen_tree(rng):
     return main
 
 
+def targeted_trees():
+    """5.5: a union pattern is a SET of rules, one per alternative, each with its own default priority.  Systematic family
+    (both tiers): a union rule without priority whose alternatives have unequal default priorities, next to one competitor
+    whose priority lies between / beside them, in both document orders and as importer / imported module - decided wrongly by
+    a table entry that tests the whole union (unionRankedByBestAlternative, repaired)"""
+    a, b = t_name("a"), t_name("b")
+    P = lambda *steps, **kw: path(list(steps), **kw)
+    ch = lambda t, *p: step("child", t, *p)
+    unions = [bin_("|", P(ch(a), ch(b)), P(ch(b))), bin_("|", P(ch(b)), P(ch(a), ch(b))), bin_("|", P(ch(T_ANY, P(step("attribute", t_name("x"))))), P(ch(T_ANY))),
+              bin_("|", P(ch(b, num(1))), P(ch(T_NODE))), bin_("|", P(ch(T_ANY)), P(ch(a), ch(T_ANY))), bin_("|", bin_("|", P(ch(a), ch(b)), P(ch(T_ANY))), P(ch(b)))]
+    comps = [(P(ch(b)), None), (P(ch(b)), 2), (P(ch(b)), -2), (P(ch(T_ANY)), None), (P(ch(T_ANY)), 2), (P(ch(T_ANY)), 0), (P(ch(T_NODE)), -2), (P(ch(a), ch(b)), None)]
+    def rule(rid, pat, pr):
+        return {"rid": rid, "pat": pat, "mode": "m", "hasPrio": pr is not None, "prio": {"k": "fin", "neg": (pr or 0) < 0, "m": abs(pr or 0)}, "imports": False}
+    out = []
+    for u in unions:
+        for cp, pr in comps:
+            for shape in ("uc", "cu", "imp"):
+                ru, rc = rule(1, u, None), rule(2, cp, pr)
+                if shape == "imp":        # same import precedence is what 5.5 ranks; across modules precedence must still win
+                    out.append({"id": 1, "rules": [rc], "qmode": False, "style": 0,
+                                "imports": [{"id": 2, "rules": [ru], "imports": [], "qmode": False, "style": 0}]})
+                else:
+                    out.append({"id": 1, "rules": [ru, rc] if shape == "uc" else [rc, ru], "imports": [], "qmode": False, "style": 0})
+    return out
+
+
 def render_module(mod, first_line, is_main):
     """returns (text, line->rid map, next free line). One template per line; lines are globally unique.
     Lexical variation that must not matter (XSLT 2.4: an unprefixed QName in mode= is in NO namespace, whatever default namespace
@@ -181,12 +207,16 @@ def run(res, tier, seed):
     wd = vlib.workdir("c10-%d" % os.getpid())
     c02.mc_laws(res, tier, wd)
     docs = c02.make_docs(rng, 3 if quick else 20)
+    # b with and without a parent a, with and without @x, first and later b, text and comment: the document of the targeted family
+    docs.append(xdm.R(xdm.E("c", xdm.E("a", xdm.E("b"), xdm.E("a", xdm.E("b", a=[xdm.A("x", "1")]), a=[xdm.A("x", "1")]), xdm.T("t")),
+                            xdm.E("b", xdm.E("b"), xdm.E("b", a=[xdm.A("x", "2")]), xdm.T("t")))))
     flats = [xdm.flatten(t, c02.ID_ATTRS) for t in docs]
-    ncases = 400 if quick else 8000
+    targeted = targeted_trees()
+    ncases = (400 if quick else 8000) + len(targeted)
     cases, metas = [], []
     for k in range(ncases):
-        tree = gen_tree(rng)
-        d = rng.randrange(len(docs))
+        tree = gen_tree(rng) if k >= len(targeted) else targeted[k]
+        d = rng.randrange(len(docs)) if k >= len(targeted) else len(docs) - 1
         cdir = os.path.join(wd, "case%d" % k)
         lmap = write_case(cdir, tree, c02.doc_xml(docs[d]))
         cases.append({"id": k, "dir": cdir, "trace": "all", "select": False})
@@ -262,7 +292,8 @@ def run(res, tier, seed):
             res.violation(rj["msg"][:200], [ex[0], dict(ex[1], flatdoc=flats[ex[1]["docn"] - 1]), ev])
     res.cov["traces_validated_against_impl"] = nexec - len(bad)
     res.cov["distinct_nontrivial"] = len(nontriv)
-    res.cov["rule"] = ("seeded rule sets: 1-9 rules over a 26-pattern pool (unions with unequal default priorities, *, node(), text(), @*, '/', predicates), priorities "
+    res.cov["rule"] = ("%d targeted rule sets (a union rule with unequal default priorities x a competitor of every relative priority x document order / import) + " % len(targeted) +
+                       "seeded rule sets: 1-9 rules over a 26-pattern pool (unions with unequal default priorities, *, node(), text(), @*, '/', predicates), priorities "
                        "{none,-1,-0.25,0,0.25,0.5,1,2}, a tested and a distractor mode, import trees (flat / one / two / chain / two+chain), apply-imports bodies; every node "
                        "and attribute of the document is pushed through apply-templates; non-trivial = at least 3 different rules chosen or an apply-imports pick; distinct by (rule tree, document)")
     for ex in execs[:3]:
@@ -288,8 +319,9 @@ def _default_prio(alt):
 
 
 def classify(tree, ev, lookup="quiet"):
-    """known deviation: a union pattern without explicit priority is ranked as a whole by the highest default priority of
-    its alternatives (each table entry tests the complete union), so it can beat a rule that should win"""
+    """class of the (repaired) deviation unionRankedByBestAlternative: a union pattern without explicit priority was ranked as a
+    whole by the highest default priority of its alternatives (each table entry tested the complete union), so it could beat a
+    rule that should win.  The entry has status "fixed", so it suppresses nothing: a reject of this class is a violation"""
     def rules(m):
         for r in m["rules"]:
             yield r
